@@ -27,10 +27,16 @@ format_source_with_line_length with MIR dominators:
   R6  emitted text is the token's own text; synthesised text is layout/separator characters or the re-emission of
       a token kind the same function eats (paired with R1's frozen exceptions)
 
+  R7  a line comment ends its line: after Formatter::token on an element that can be a LINE_COMMENT the next
+      thing pushed to the output on every non-panicking path is a hard line (Formatter::hard_line), before any
+      token/text/doc and before the function returns; a deferred doc (concat closure) that ends in a line comment
+      is tracked through its carrier to every consumer, which must append a hard line or test ends_with_hard_line
+
 NOT decided: idempotence; width-dependent layout; the order of emitted tokens (use declarations and modifiers are
 sorted on purpose); duplication of tokens; the Doc → text renderer; flow of docs/tokens through containers (Vec)
 between the function that fills and the one that empties them; that COMMA is optional wherever it is dropped;
-grammar facts quoted as frozen one-line reasons (DRAINED_OK, ACCESSOR_FORMATTERS, UNREACHABLE_ARMS).
+grammar facts quoted as frozen one-line reasons (DRAINED_OK, ACCESSOR_FORMATTERS, UNREACHABLE_ARMS,
+NO_DIRECT_COMMENT); that Doc::HardLine really breaks the line in the renderer and that nothing else re-joins lines.
 """
 import cfg
 import hirq
@@ -1656,6 +1662,16 @@ def run(chk, F):
 
 
 # --------------------------------------------------------------------------- R7 a line comment ends its line
+# Frozen: functions whose token arm can structurally see a LINE_COMMENT but never does (grammar fact, read from the parser)
+NO_DIRECT_COMMENT = {
+    "dora_format::doc::expr::format_template":
+        "TEMPLATE_EXPR has no direct token children: parse_template wraps every literal part in a LIT_STR_EXPR node "
+        "(opened before the token is advanced, so its leading trivia lands inside) and every interpolation is an "
+        "expression node; trailing trivia is taken by the inner close first — the generic token arm only ever sees "
+        "nothing (confirmed: `\"a${x\\n// c\\n}b\"` keeps the comment on its own line via format_lit_str)",
+}
+
+
 def doc_consumers(m, ctor):
     """functions (of the analysed crate) that take the Doc out of carrier `ctor` by a pattern"""
     out = set()
@@ -1695,9 +1711,11 @@ def run_r7(chk, cf, m, A):
             bad_origin.setdefault(o, set()).add((key, fn, what, line))
     for (sfn, line) in sorted(sites):
         r.instance("%s:line%d:token(LINE_COMMENT?)" % (short(sfn), line),
-                   sample={"fn": sfn, "reached_from": len(sites[(sfn, line)]), "ok": sfn not in bad_origin})
+                   sample={"fn": sfn, "reached_from": len(sites[(sfn, line)]),
+                           "ok": sfn not in bad_origin or sfn in NO_DIRECT_COMMENT})
+    used_exempt = set()
     for o in sorted(bad_origin):
-        evs = sorted(bad_origin[o], key=lambda x: (x[1], x[2]))
+        evs = sorted(bad_origin[o], key=lambda x: (x[0] != o, x[1] != o, x[1], x[2]))
         if o.startswith("carrier:"):
             ctor = o.split(":", 1)[1]
             for consumer in sorted({k for (k, fn, what, line) in evs}):
@@ -1707,6 +1725,10 @@ def run_r7(chk, cf, m, A):
                             "path the next output (%s in %s) is not a hard line and the doc was not tested to end "
                             "with one: what follows is rendered on the comment's line, i.e. commented out"
                             % (short(consumer), ctor, ex[2], short(ex[1])), where(cf, consumer.split("::{closure")[0]))
+            continue
+        if o in NO_DIRECT_COMMENT:
+            used_exempt.add(o)
+            r.observe("%s can push a LINE_COMMENT without a hard line — accepted: %s" % (short(o), NO_DIRECT_COMMENT[o]))
             continue
         nexts = []
         for (k, fn, what, line) in evs:
@@ -1719,6 +1741,9 @@ def run_r7(chk, cf, m, A):
                     "being a NEWLINE does not count: the comment may be the last child of its node): whatever is "
                     "rendered next lands on the comment's line and is commented out — code tokens vanish although "
                     "every token was emitted" % (short(o), "; ".join(nexts[:3])), where(cf, o))
+    for o in sorted(NO_DIRECT_COMMENT):
+        if o not in used_exempt:
+            analysis(r, "%s:stale-exception" % short(o), "the frozen reason for %s no longer matches anything" % short(o))
     # 2. deferred docs that may end in a line comment, and their consumers
     for ctor in sorted(A.copen):
         cons = doc_consumers(m, ctor)
